@@ -16,6 +16,7 @@ FAMILIES = [
     ("caches", "pack:2 l2:2 l1:1 core:1 pu:1", []),
     ("misc", "pack:2 core:2 pu:2", "MISC"),
     ("io", "pack:2 core:2 pu:2", "IO"),
+    ("groupmisc", "pack:2 group:2 core:2 pu:1", "GROUPMISC"),      # Misc below objects of a level that a restrict makes redundant (merged)
     ("offline", "pack:2 core:2 pu:2", "OFFLINE"),       # PUs 1 and 6 offline: the complete cpuset is larger than the cpuset
 ]
 OFFLINE_PUS = (1, 6)
@@ -140,6 +141,8 @@ def set_choices(info, rng, thorough):
         choices.append(set_to_ranges(pus[n // 2:]))
         choices.append(set_to_ranges(pus[1:]))
         choices.append(set_to_ranges(pus[::2]))
+        choices.append(set_to_ranges(pus[0:2] + pus[4:6]))        # one sub-tree of each half (levels become redundant)
+        choices.append(set_to_ranges(pus[2:4] + pus[6:8]))
         for cs in info["nodes"].values():
             if cs:
                 choices.append(set_to_ranges(cs))
@@ -179,6 +182,11 @@ def family_prefix(ctx, fam, info, preset):
         lines += ["load 0"]
     elif prefix == "OFFLINE":
         lines += ["xml 0 " + make_offline_xml(ctx, name)] + PRESETS[preset] + ["load 0"]
+    elif prefix == "GROUPMISC":
+        lines += ["synthetic 0 " + desc] + (PRESETS[preset] if preset != "default" else []) + ["filter 0 19 0", "load 0"]
+        g = info["gps"]
+        # Misc below the first and third Group, below a Package and below a Core
+        lines += ["insert_misc 0 %d m-g0" % g[13][0], "insert_misc 0 %d m-g2" % g[13][2], "insert_misc 0 %d m-pack" % g[1][0], "insert_misc 0 %d m-core" % g[3][1]]
     elif prefix == "MISC":
         lines += ["synthetic 0 " + desc] + (PRESETS[preset] if preset != "default" else []) + ["filter 0 19 0", "load 0"]
         g = info["gps"]
@@ -212,7 +220,7 @@ def run(ctx, replay=None):
     info = prepass(ctx, exe)
     flagwords = list(range(33))
     behs = []
-    fams = FAMILIES if thorough else [f for f in FAMILIES if f[0] in ("sym", "nested", "misc", "io", "cpuless", "offline")]
+    fams = FAMILIES if thorough else [f for f in FAMILIES if f[0] in ("sym", "nested", "misc", "io", "cpuless", "offline", "groupmisc")]
     for fam in fams:
         name = fam[0]
         presets = ["default", "keepall", "structure"] if (thorough or name in ("nested",)) else (["structure"] if name == "sym" else ["default"])
